@@ -66,6 +66,13 @@ static sp_block_t scratch_head = { .next = 0, .prev = 0 };
 unsigned char *scr_last = &scratchblock[2], *scr_tail = &scratchblock[2];
 unsigned char *scratch_end = scratchblock + SCRATCHPAD_SIZE;
 
+#ifdef NEOLITH_VERIF
+/* verification hook (see lib/lpc/compiler.h): scratchpad trace points (event, scr_tail offset, last valid offset) */
+extern void (*verif_compiler_trace)(const char *event, long cursor, long size);
+#define VERIF_STRACE(ev) do { if (verif_compiler_trace) verif_compiler_trace ((ev), (long)(scr_tail - scratchblock), SCRATCHPAD_SIZE - 1); } while (0)
+#define VERIF_STRACE_AT(ev, p) do { if (verif_compiler_trace) verif_compiler_trace ((ev), (long)((unsigned char *)(p) - scratchblock), SCRATCHPAD_SIZE - 1); } while (0)
+#endif
+
 void
 scratch_destroy ()
 {
@@ -82,6 +89,9 @@ scratch_destroy ()
   scratch_head.next = 0;
   scr_last = &scratchblock[2];
   scr_tail = &scratchblock[2];
+#ifdef NEOLITH_VERIF
+  VERIF_STRACE ("scr.destroy");
+#endif
 }
 
 
@@ -108,6 +118,9 @@ scratch_copy (char *str)
       *to++ = 0;
       scr_tail = to;
       *to = (unsigned char)(to - scr_last);
+#ifdef NEOLITH_VERIF
+      VERIF_STRACE ("scr.push");
+#endif
       return (char *) scr_last;
     }
   SDEBUG (printf (" mallocing ... "));
@@ -131,7 +144,13 @@ scratch_free (char *ptr)
   if (Ptr == scr_last)
     {
       SDEBUG2 (printf ("last freed\n"));
+#ifdef NEOLITH_VERIF
+      VERIF_STRACE ("scr.free_last");
+#endif
       scratch_free_last ();
+#ifdef NEOLITH_VERIF
+      VERIF_STRACE ("scr.after");
+#endif
     }
   else if (*(Ptr - 2))
     {
@@ -146,10 +165,16 @@ scratch_free (char *ptr)
       if (sbt->next)
 	sbt->next->prev = sbt->prev;
       FREE (sbt);
+#ifdef NEOLITH_VERIF
+      VERIF_STRACE ("scr.free_block");
+#endif
     }
   else
     {
       SDEBUG (printf ("interior free\n"));
+#ifdef NEOLITH_VERIF
+      VERIF_STRACE_AT ("scr.mark", ptr);
+#endif
       *ptr = 0;			/* mark it as freed */
     }
 }
@@ -164,6 +189,9 @@ char* scratch_large_alloc (size_t size) {
   spt->prev = (sp_block_t *) & scratch_head;
   spt->block[0] = SCRATCH_MAGIC;
   scratch_head.next = spt;
+#ifdef NEOLITH_VERIF
+  VERIF_STRACE ("scr.large");
+#endif
   return (char *) &spt->block[2];
 }
 
@@ -178,6 +206,9 @@ char* scratch_realloc (char *ptr, size_t size) {
 	  SDEBUG (printf ("on scratchpad\n"));
 	  scr_tail = scr_last + size;
 	  *scr_tail = (unsigned char)size;
+#ifdef NEOLITH_VERIF
+	  VERIF_STRACE ("scr.resize");
+#endif
 	  return ptr;
 	}
       else
@@ -186,7 +217,13 @@ char* scratch_realloc (char *ptr, size_t size) {
 	  SDEBUG (printf ("copy off ... "));
 	  res = scratch_large_alloc (size);
 	  strcpy (res, ptr);
+#ifdef NEOLITH_VERIF
+	  VERIF_STRACE ("scr.free_last");
+#endif
 	  scratch_free_last ();
+#ifdef NEOLITH_VERIF
+	  VERIF_STRACE ("scr.after");
+#endif
 	  return res;
 	}
     }
@@ -218,6 +255,9 @@ char* scratch_realloc (char *ptr, size_t size) {
 	  Strcpy (scr_last, ptr);
 	  scr_tail = scr_last + size;
 	  *scr_tail = (unsigned char)size;
+#ifdef NEOLITH_VERIF
+	  VERIF_STRACE ("scr.push");
+#endif
 	  res = (char *) scr_last;
 	}
       else
@@ -226,6 +266,9 @@ char* scratch_realloc (char *ptr, size_t size) {
 	  res = scratch_large_alloc (size);
 	  strcpy (res, ptr);
 	}
+#ifdef NEOLITH_VERIF
+      VERIF_STRACE_AT ("scr.mark", ptr);
+#endif
       *ptr = 0;			/* free the old version */
       return res;
     }
@@ -239,6 +282,9 @@ char* scratch_alloc (size_t size) {
       scr_last = scr_tail + 1;
       scr_tail = scr_last + size;
       *scr_tail = (unsigned char)size;
+#ifdef NEOLITH_VERIF
+      VERIF_STRACE ("scr.push");
+#endif
       return (char *) scr_last;
     }
   else
@@ -287,6 +333,9 @@ scratch_join (char *s1, char *s2)
 	  while (*scr_tail++);
 	  *scr_tail = (unsigned char)tmp;
 	  scr_last = S1;
+#ifdef NEOLITH_VERIF
+	  VERIF_STRACE ("scr.join");
+#endif
 	  return s1;
 	}
       else
@@ -347,6 +396,9 @@ scratch_copy_string (char *s)
 	  *to++ = 0;
 	  scr_tail = to;
 	  *to = (unsigned char)(to - scr_last);
+#ifdef NEOLITH_VERIF
+	  VERIF_STRACE ("scr.push");
+#endif
 	  return (char *) scr_last;
 	}
       else
